@@ -60,6 +60,7 @@ type Case struct {
 	Seed    uint64 `json:"seed,omitempty"`    // generator seed of this case
 	Writers []int  `json:"writers,omitempty"` // conc: events per writer
 	KillUs  int    `json:"kill_us,omitempty"` // kill: delay after the first acknowledgement
+	Reopeners int  `json:"reopeners,omitempty"` // conc: goroutines that call Reopen() in a loop next to the writers
 	Rm      bool   `json:"rm,omitempty"`      // generate deletions from outside (rmdir / rmactive) as well
 }
 
@@ -316,19 +317,79 @@ func sobsLit(o *SObs) string {
 		hc.B(o.Ok), hc.List(fl), hc.List(fr), hc.Z(o.Bw), hc.Z(o.Lc), hc.N(int(o.Dir)), nlist(o.Out), nlist(o.ErrOut))
 }
 
+func dirEvLit(evs []dirEv) string {
+	l := make([]string, len(evs))
+	for i, e := range evs {
+		l[i] = hc.Pair(hc.N(e.Kind), hc.Z(e.Stamp))
+	}
+	return hc.List(l)
+}
+
+// ---------- the directory's own event log (inotify): the order in which the kernel performed creations, renames and removals ----------
+type dirWatch struct{ fd int }
+
+func watchDir(dir string) (*dirWatch, error) {
+	fd, err := syscall.InotifyInit1(syscall.IN_NONBLOCK | syscall.IN_CLOEXEC)
+	if err != nil {
+		return nil, err
+	}
+	if _, err := syscall.InotifyAddWatch(fd, dir, syscall.IN_CREATE|syscall.IN_MOVED_TO|syscall.IN_DELETE); err != nil {
+		syscall.Close(fd)
+		return nil, err
+	}
+	return &dirWatch{fd}, nil
+}
+
+// drain returns the queued events in kernel order; ok = false when the queue overflowed
+func (w *dirWatch) drain() (evs []struct {
+	mask uint32
+	name string
+}, ok bool) {
+	ok = true
+	buf := make([]byte, 1<<16)
+	for {
+		n, err := syscall.Read(w.fd, buf)
+		if n <= 0 || err != nil {
+			break
+		}
+		for off := 0; off+syscall.SizeofInotifyEvent <= n; {
+			mask := uint32(buf[off+4]) | uint32(buf[off+5])<<8 | uint32(buf[off+6])<<16 | uint32(buf[off+7])<<24
+			ln := int(uint32(buf[off+12]) | uint32(buf[off+13])<<8 | uint32(buf[off+14])<<16 | uint32(buf[off+15])<<24)
+			name := strings.TrimRight(string(buf[off+syscall.SizeofInotifyEvent:off+syscall.SizeofInotifyEvent+ln]), "\x00")
+			if mask&syscall.IN_Q_OVERFLOW != 0 {
+				ok = false
+			}
+			evs = append(evs, struct {
+				mask uint32
+				name string
+			}{mask, name})
+			off += syscall.SizeofInotifyEvent + ln
+		}
+	}
+	syscall.Close(w.fd)
+	return
+}
+
 type step struct {
 	opLit string
 	obs   *SObs
 }
 
-func caseLit(id int, c Cfg, dm int, writers int, wacked [][]int, model bool, steps []step) string {
+// dirEv: one change of the directory as the kernel queued it (inotify): 1 = a stamped name appeared (created or renamed to),
+// 2 = a stamped name was removed, 3 = a stamped name that is there at the end; with its stamp
+type dirEv struct {
+	Kind  int
+	Stamp int64
+}
+
+func caseLit(id int, c Cfg, dm int, writers int, wacked [][]int, model bool, steps []step, evs ...dirEv) string {
 	var sb strings.Builder
 	dmLit := "None"
 	if dm != 0 {
 		dmLit = "Some " + hc.N(dm)
 	}
-	fmt.Fprintf(&sb, "{| c_id := %s; c_cfg := %s; c_fids := %s; c_dm := %s; c_k0 := 0%%Z; c_writers := %s; c_counts := %s; c_model := %s; c_steps := [",
-		hc.N(id), cfgLit(c), nlist(c.Foreign), dmLit, hc.N(writers), nlistList(wacked), hc.B(model))
+	fmt.Fprintf(&sb, "{| c_id := %s; c_cfg := %s; c_fids := %s; c_dm := %s; c_k0 := 0%%Z; c_writers := %s; c_counts := %s; c_model := %s; c_dirlog := %s; c_steps := [",
+		hc.N(id), cfgLit(c), nlist(c.Foreign), dmLit, hc.N(writers), nlistList(wacked), hc.B(model), dirEvLit(evs))
 	for i, s := range steps {
 		if i > 0 {
 			sb.WriteString(";\n  ")
@@ -823,6 +884,11 @@ func execConc(c Case, root string) (res result) {
 	defer os.RemoveAll(filepath.Dir(dir))
 	fs := &el.FileSink{Path: dir, FileName: c.Cfg.FileName, MaxBytes: c.Cfg.MaxBytes, MaxFiles: c.Cfg.MaxFiles,
 		TimestampOnlyOnRotate: c.Cfg.TsOnly, Mode: os.FileMode(c.Cfg.Mode)}
+	// the directory exists beforehand so that it can be watched: its event queue is the order of the sink's critical sections
+	if err := os.Mkdir(dir, 0o750); err != nil {
+		panic(err)
+	}
+	watch, werr := watchDir(dir)
 	tk := &tokenizer{byKey: map[byte][]byte{}, idOf: map[byte]int{}}
 	r := hc.NewRand(c.Seed)
 	type ev struct {
@@ -871,19 +937,75 @@ func execConc(c Case, root string) (res result) {
 			}
 		}(w)
 	}
+	// Reopen() callers: their open() stamps a new file inside the critical section while writers are queueing
+	stop := make(chan struct{})
+	var rwg sync.WaitGroup
+	reopens := 0
+	var reopenMu sync.Mutex
+	for i := 0; i < c.Reopeners; i++ {
+		rwg.Add(1)
+		go func() {
+			defer rwg.Done()
+			<-start
+			for {
+				select {
+				case <-stop:
+					return
+				default:
+				}
+				if fs.Reopen() == nil {
+					reopenMu.Lock()
+					reopens++
+					reopenMu.Unlock()
+				}
+				time.Sleep(20 * time.Microsecond)
+			}
+		}()
+	}
 	close(start)
 	wg.Wait()
+	close(stop)
+	rwg.Wait()
 	if panicked != "" {
 		panic("a writer goroutine panicked: " + panicked)
 	}
 	o := &SObs{Ok: true, Lc: -1, Bw: fs.BytesWritten}
 	o.Files, o.Foreign, o.Dir = listDir(dir, ns, tk.tokens, nil, nil)
+	var dirlog []dirEv
+	if werr == nil {
+		evs, ok := watch.drain()
+		if ok {
+			for _, e := range evs {
+				k, ts := ns.classify(e.name)
+				if k != 1 {
+					continue
+				}
+				switch {
+				case e.mask&(syscall.IN_CREATE|syscall.IN_MOVED_TO) != 0:
+					dirlog = append(dirlog, dirEv{1, ts})
+				case e.mask&syscall.IN_DELETE != 0:
+					dirlog = append(dirlog, dirEv{2, ts})
+				}
+			}
+			for _, f := range o.Files {
+				if f.Kind == 1 {
+					dirlog = append(dirlog, dirEv{3, f.Stamp})
+				}
+			}
+			res.stats["conc_dir_events"] += len(evs)
+		} else {
+			res.stats["conc_dir_event_queue_overflowed"]++
+		}
+	} else {
+		res.stats["conc_dir_watch_unavailable"]++
+	}
+	res.stats["conc_reopens"] = reopens
 	total := 0
 	for w := range acked {
 		total += len(acked[w])
 	}
 	var steps []step
-	model := c.Cfg.MaxFiles == 0
+	model := c.Cfg.MaxFiles == 0 && c.Reopeners == 0
 	t := int64(10)
 	wr := func(id int, ob *SObs) {
 		steps = append(steps, step{fmt.Sprintf("XOp (Write %s %s %s %s %s %s %s nofault)", hc.N(id), hc.Z(int64(sizes[id])),
@@ -934,7 +1056,7 @@ func execConc(c Case, root string) (res result) {
 	res.stats["conc_files"] = len(o.Files)
 	res.nontriv = len(o.Files) > 1 && len(c.Writers) > 1
 	res.sig = fmt.Sprintf("conc %+v %v %d", c.Cfg, c.Writers, c.Seed)
-	res.lit = caseLit(c.ID, c.Cfg, 0, len(c.Writers), acked, model, steps)
+	res.lit = caseLit(c.ID, c.Cfg, 0o750, len(c.Writers), acked, model, steps, dirlog...)
 	return res
 }
 
@@ -1293,7 +1415,11 @@ func main() {
 				for w := range ws {
 					ws[w] = 1 + g.Intn(120/nw)
 				}
-				todo = append(todo, Case{ID: id, Gen: "conc", Cfg: c, Writers: ws, Seed: g.U64()})
+				reop := 0
+				if g.Chance(1, 2) {
+					reop = 1 + g.Intn(2)
+				}
+				todo = append(todo, Case{ID: id, Gen: "conc", Cfg: c, Writers: ws, Seed: g.U64(), Reopeners: reop})
 				id++
 			}
 		case "fsize":
